@@ -2,6 +2,7 @@ package main
 
 import (
 	"fmt"
+	"net"
 	"net/netip"
 	"time"
 )
@@ -184,6 +185,25 @@ func netC06(s *Sink, tier string) {
 				if perr != nil {
 					continue
 				}
+				// SetAddress (function 0x96, the one request without a reply) takes the same route
+				setIdx := uint32(0x0a000000) | uint32(0x10000*bi+0x100*path+round+1) // = address 10.b.p.r little-endian in bytes 8..11
+				ipb := []byte{byte(setIdx), byte(setIdx >> 8), byte(setIdx >> 16), byte(setIdx >> 24)}
+				farm.Plan(setIdx, Behaviour{NoReply: true})
+				farm.ResetLog()
+				if _, serr := u.SetAddress(id, net.IP(ipb), net.IPv4(255, 255, 255, 0), net.IPv4(10, 0, 0, 1)); serr != nil {
+					s.Fail(js, fmt.Sprintf("SetAddress over %s failed: %v", pn, serr))
+				} else {
+					time.Sleep(30 * time.Millisecond)
+					got := farm.Log()
+					if len(got) != 1 || got[0].Index != setIdx || got[0].Proto != wantProto {
+						desc := []string{}
+						for _, ev := range got {
+							desc = append(desc, fmt.Sprintf("%s from %s", ev.Proto, ev.From))
+						}
+						s.Fail(js, fmt.Sprintf("SetAddress for a controller reached over %s arrived as %v (expected exactly one %s request)", pn, desc, wantProto))
+					}
+				}
+				calls++
 				if !bind.Addr().IsUnspecified() && from.Addr() != bind.Addr() {
 					s.Fail(js, fmt.Sprintf("request left from %v, the configured bind address is %v", from.Addr(), bind.Addr()))
 				}
